@@ -2,6 +2,7 @@
 pub mod alloc_track;
 pub mod conv;
 pub mod engine;
+pub mod fuzzing;
 pub mod guard;
 pub mod known;
 pub mod props;
